@@ -1365,10 +1365,11 @@ class ContactHandler(Messenger, dbus.service.Object):
     def recv_xfer_refuse(self, transfer_id, reason):
         Messenger.recv_xfer_refuse(self, transfer_id, reason)
 
-        item = self._tx_map.pop(transfer_id, None)
-        if item is None:
-            # Not a transfer which can be refused
+        item = self._tx_map.get(transfer_id)
+        if item is None or item in self._tx_pend_start:
+            # Not a transfer which can be refused (unknown or not yet started)
             raise RejectError(messages.RejectMsg.Reason.UNEXPECTED)
+        del self._tx_map[transfer_id]
         self.send_bundle_finished(
             str(transfer_id),
             item.ack_length,
